@@ -1526,3 +1526,63 @@ func (w *Worker) sqlDump() string {
 	}
 	return sb.String()
 }
+
+// ---------- transactions: snapshot / restore ----------
+
+func (db *sqlDB) clone() *sqlDB {
+	n := &sqlDB{tables: map[string]*sqlTable{}, uniques: db.uniques, fks: db.fks, rowSeq: db.rowSeq, stmts: db.stmts}
+	for name, t := range db.tables {
+		nt := &sqlTable{name: t.name, cols: t.cols, rows: make([]*sqlRow, len(t.rows))}
+		for i, r := range t.rows {
+			cells := make(map[string]sqlVal, len(r.cells))
+			for k, v := range r.cells {
+				cells[k] = v
+			}
+			nt.rows[i] = &sqlRow{cells: cells, id: r.id}
+		}
+		n.tables[name] = nt
+	}
+	return n
+}
+
+func init() {
+	// verifSQLBegin(tx *sql.Tx): a write transaction starts; remember the database state
+	harnessIntrinsicsExtra["verifSQLBegin"] = func(w *Worker, _ *frame, _ *ssa.Function, a []Value) Value {
+		iv, _ := a[0].(IfaceV)
+		p, ok := iv.V.(PtrV)
+		if !ok || p.O == nil {
+			panic(pathAbort{"unsupported", "verifSQLBegin needs a *sql.Tx"})
+		}
+		w.sqlTx[p.O] = &sqlTxState{snap: w.sqlState().clone()}
+		return nil
+	}
+	txEnd := func(commit bool) intrinsic {
+		return func(w *Worker, _ *frame, fn *ssa.Function, a []Value) Value {
+			p := a[0].(PtrV)
+			st := w.sqlTx[p.O]
+			if st == nil {
+				// a transaction the harness did not register: nothing to undo
+				st = &sqlTxState{}
+				w.sqlTx[p.O] = st
+			}
+			if st.done {
+				g := w.P.Prog.ImportedPackage("database/sql").Var("ErrTxDone")
+				return w.load(w.global(g))
+			}
+			st.done = true
+			if !commit && st.snap != nil {
+				w.sql = st.snap
+			}
+			st.committed = commit
+			return IfaceV{}
+		}
+	}
+	reg(txEnd(true), "(*database/sql.Tx).Commit")
+	reg(txEnd(false), "(*database/sql.Tx).Rollback")
+}
+
+type sqlTxState struct {
+	snap      *sqlDB
+	done      bool
+	committed bool
+}
